@@ -380,3 +380,25 @@ def run(F, R, tier):
     R.ob("C13-c", "the deferred load fills in the source of Js / Json / Wasm modules", len(src) >= 3, "only %d `module.source = ..` assignments" % len(src), hc["file"])
     an = [b for b in F.bodies if "ProvidedModuleAnalyzer" in b["path"] and b["path"].endswith("::analyze")]
     R.ob("C13-c", "the provided analyzer returns the embedded info", len(an) == 1 and any(n.get("k") == "MethodCall" and n["name"] == "take" for n in an[0]["_nodes"]), "shape changed", ls["file"])
+
+    # ---------------- later (round 6) ---------------------------------------
+    # C13-m: a manifest carrying both sections is read from moduleGraph2; the
+    # legacy moduleGraph1 section (which cannot express @ts-types etc.) is only
+    # consulted when moduleGraph2 is absent, and only it is upgraded
+    mi = F.body("packages::JsrPackageVersionInfo::module_info")
+    g1 = [n for n in mi["_nodes"] if n.get("k") == "Field" and n["field"] == "module_graph_1"]
+    g2 = [n for n in mi["_nodes"] if n.get("k") == "Field" and n["field"] == "module_graph_2"]
+    R.floor("C13-m reads of module_graph_1 / module_graph_2 in module_info", min(len(g1), len(g2)), 1)
+    for n in g1:
+        g = guards_at(F, n)
+        absent2 = any((x.kind == "pat" and not x.pol and mentions_field(x.scrut, "module_graph_2") and "Option::Some" in pat_text(x.pat)) or
+                      (x.kind == "pat" and x.pol and mentions_field(x.scrut, "module_graph_2") and "Option::None" in pat_text(x.pat)) or
+                      (x.kind == "cond" and mentions_field(x.node, "module_graph_2") and ((x.pol and any(y.get("name") == "is_none" for y in walk(x.node))) or (not x.pol and any(y.get("name") == "is_some" for y in walk(x.node))))) for x in g)
+        chained = any(a.get("k") == "MethodCall" and a["name"] in ("or", "or_else") and mentions_field(a["recv"], "module_graph_2") and is_within(n, a["args"][0]) for a in k_ancestors(n))
+        R.ob("C13-m", "moduleGraph1 is consulted only when the manifest has no moduleGraph2", absent2 or chained,
+             "JsrPackageVersionInfo::module_info reads `module_graph_1` without having established that `module_graph_2` is absent: for a manifest that carries both sections the legacy one wins, and information it cannot express (e.g. @ts-types) is lost, so the shortcut graph differs from the parsed one", where(n),
+             key="C13|C13-m|legacy-section-preferred")
+    for n in g2:
+        g = guards_at(F, n)
+        bad = any(mentions_field(x.scrut if x.kind == "pat" else x.node, "module_graph_1") for x in g)
+        R.ob("C13-m", "moduleGraph2 is read unconditionally", not bad, "the read of `module_graph_2` depends on `module_graph_1`", where(n), key="C13|C13-m|legacy-section-preferred")
